@@ -2554,3 +2554,107 @@ func termString(t *Term) (string, bool) {
 	}
 	return constant.StringVal(t.Val), true
 }
+
+// c10BlockCommentEnd — a /* */ comment ends at the first "*/" behind its opening (C10.d). Two structural conditions on
+// CommentState's block-comment loop (the loop that compares a consumed rune with '*'):
+//   (1) every rune the loop consumes is itself examined for being a '*' before the next one is consumed — except the
+//       last rune of a path that leaves the loop (the closing '/'): a loop that consumes "the rune after a star" and
+//       moves on never sees the closer in "**/" (or in "/**/" when the opening's star is comment text);
+//   (2) the two runes of the opening are consumed before the loop: otherwise the opening's '*' can pair with a
+//       following '/' ("/*/" closes) or hide the real closer.
+func c10BlockCommentEnd(c *Ctx, r *Report, clause string) {
+	f := c.need(r, clause, "Parser", "", "CommentState")
+	if f == nil {
+		return
+	}
+	info := f.Pkg.TypesInfo
+	key := f.Name + "/block-comment-ends-at-the-first-star-slash"
+	isCall := func(t *Term, name string) bool {
+		return t != nil && t.Op == "call" && strings.HasSuffix(t.Name, "lexer)."+name)
+	}
+	type found struct {
+		loop  *ast.ForStmt
+		paths []*PathOut
+	}
+	var loops []found
+	ast.Inspect(f.Decl.Body, func(n ast.Node) bool {
+		fs, ok := n.(*ast.ForStmt)
+		if !ok {
+			return true
+		}
+		paths, err := newPathEnum(info).Enumerate(fs.Body.List)
+		if err != nil {
+			return true
+		}
+		for _, p := range paths {
+			for _, cd := range p.Conds {
+				if cd.Atom.Op == "cmp" && len(cd.Atom.Args) == 2 && isCall(cd.Atom.Args[0], "next") && cd.Atom.Args[1].Val != nil {
+					if v, ok := constant.Int64Val(cd.Atom.Args[1].Val); ok && v == '*' {
+						loops = append(loops, found{fs, paths})
+						return false
+					}
+				}
+			}
+		}
+		return true
+	})
+	if len(loops) != 1 {
+		r.Undecided(clause, "R4 DECISION-TABLE", key, c.pos(f.Decl.Pos()), fmt.Sprintf("%d loops compare a consumed rune with '*' (one confirmed by hand)", len(loops)))
+		return
+	}
+	lp := loops[0]
+	var bad []string
+	for _, p := range lp.paths {
+		var nexts []ast.Node
+		for _, e := range p.Effects {
+			if e.Kind == "call" && isCall(e.Term, "next") {
+				nexts = append(nexts, e.Term.Node)
+			}
+		}
+		examined := map[ast.Node]bool{}
+		for _, cd := range p.Conds {
+			if cd.Atom.Op == "cmp" && len(cd.Atom.Args) == 2 && isCall(cd.Atom.Args[0], "next") && cd.Atom.Args[1].Val != nil {
+				if v, ok := constant.Int64Val(cd.Atom.Args[1].Val); ok && v == '*' && (cd.Atom.Name == "==" || cd.Atom.Name == "!=") {
+					examined[cd.Atom.Args[0].Node] = true
+				}
+			}
+		}
+		leaves := p.Kind == "break" || p.Kind == "return"
+		for i, n := range nexts {
+			if examined[n] || (leaves && i == len(nexts)-1) {
+				continue
+			}
+			bad = append(bad, fmt.Sprintf("on the path [%s] the rune consumed at %s is never compared with '*' although the loop goes on: if it is the star of the closing \"*/\" the comment does not end there", p.CondString(), c.pos(n.Pos())))
+		}
+	}
+	// (2) the opening
+	opening := -1
+	pm := parentMap(f.Decl.Body)
+	if blk, ok := pm[lp.loop].(*ast.BlockStmt); ok {
+		opening = 0
+		for _, st := range blk.List {
+			if st == ast.Stmt(lp.loop) {
+				break
+			}
+			// statement-level calls only: a next() inside an earlier branch (the // form) belongs to that branch
+			if es, ok := st.(*ast.ExprStmt); ok {
+				if call, ok := unparen(es.X).(*ast.CallExpr); ok {
+					if fn := callee(info, call); fn != nil && fn.Name() == "next" {
+						opening++
+					}
+				}
+			}
+		}
+	}
+	switch {
+	case opening == 0:
+		bad = append(bad, "the two runes of the opening \"/*\" are not consumed before the loop: the opening's star is read as comment text (\"/**/\" does not end at its \"*/\", \"/*/\" does)")
+	case opening != 2:
+		r.Undecided(clause, "R4 DECISION-TABLE", key, c.pos(lp.loop.Pos()), fmt.Sprintf("%d next() call(s) before the block-comment loop; the opening has two runes", opening))
+		return
+	}
+	sortStrings(bad)
+	r.Check(len(bad) == 0, clause, "R4 DECISION-TABLE", key, c.pos(lp.loop.Pos()),
+		fmt.Sprintf("the opening's two runes are consumed first; on all %d paths of the loop every consumed rune is examined for '*' before the next is consumed (the closing '/' excepted)", len(lp.paths)),
+		"a /* */ comment does not end at the first \"*/\" behind its opening, so the text after the comment is swallowed or mis-read: "+strings.Join(dedupStrings(bad), "; "))
+}
